@@ -85,9 +85,9 @@ def r2_encodings(cx):
     F = cx.F
     ser = {n: F.one(impl_self="write::private::Serializer", item=n, closure=False) for n in ("write_u16", "write_u32", "write_u64", "write_usized", "write_isized", "close")}
     for n in ("write_u16", "write_u32", "write_u64", "write_usized"):
-        b = F.body(ser[n])
-        le = b.calls(r"zerocopy::U(16|32|64)<zerocopy::LittleEndian>|byteorder::U(16|32|64)<.*LittleEndian>|U(16|32|64)::<.*LittleEndian>|LittleEndian")
-        be = b.calls(r"BigEndian")
+        b = F.deep_body(ser[n], only=r"write::private::Serializer")   # through the Serializer's own helpers
+        le = b.calls(r"zerocopy::U(16|32|64)<zerocopy::LittleEndian>|byteorder::U(16|32|64)<.*LittleEndian>|U(16|32|64)::<.*LittleEndian>|LittleEndian|num::<impl u(16|32|64|size)>::to_le_bytes$")
+        be = b.calls(r"BigEndian|::to_be_bytes$|::to_ne_bytes$")
         cx.ob("R2", "R2/%s/little-endian" % n, len(le) >= 1 and not be, ser[n], "Serializer::%s encodes through a little-endian zerocopy integer (%s)" % (n, [callee_str(t) for _, t in le][:2]))
     b = F.body(ser["write_isized"])
     le = b.calls(r"LittleEndian as .*ByteOrder>::write_int$")
@@ -112,10 +112,11 @@ def r2_encodings(cx):
     mask = ref.REF["sizes"]["SizedOffset.size_mask"]
     w = layout.find_ser(F, "SizedOffset")
     r = layout.find_parse(F, "SizedOffset")
-    wb, rb = F.body(w), F.body(r)
+    wb, rb = F.deep_body(w, only=r"sized_offset::SizedOffset"), F.deep_body(r, only=r"sized_offset::SizedOffset")
     cx.ob("R2", "R2/SizedOffset/writer", _has_bin(wb, "Shl", bits) and _has_bin(wb, "BitAnd", mask) and _field_feeds(wb, "Shl", "offset") and _field_feeds(wb, "BitAnd", "size"), w,
           "SizedOffset::serialize writes offset << %d | size & %#x" % (bits, mask))
-    cx.ob("R2", "R2/SizedOffset/reader", _has_bin(rb, "Shr", bits) and _has_bin(rb, "BitAnd", mask), r, "SizedOffset::parse reads size = data & %#x, offset = data >> %d" % (mask, bits))
+    rbs = _with_fn_refs(F, rb, r"sized_offset::SizedOffset")
+    cx.ob("R2", "R2/SizedOffset/reader", _has_bin(rbs, "Shr", bits) and _has_bin(rbs, "BitAnd", mask), r, "SizedOffset::parse reads size = data & %#x, offset = data >> %d" % (mask, bits))
 
 
 def r2b_content_info_packing(cx):
@@ -129,7 +130,26 @@ def r2b_content_info_packing(cx):
         o.key = "R2/ContentInfo/" + o.key.split("/", 1)[1]
 
 
+def _with_fn_refs(F, b, only):
+    """b plus the (deep) bodies of the crate's functions that b passes by name to a combinator (`x.map(Self::from_raw)`)"""
+    out = [b]
+    for blk in b.blocks:
+        t = blk["t"]
+        if blk.get("cleanup") or t["k"] != "call":
+            continue
+        for a in t["args"]:
+            c = a.get("c") if isinstance(a, dict) else None
+            if c and c.get("fn"):
+                for g in F.fns:
+                    if g["name"] == c["fn"] or re.sub(r"<.*?>", "", g["name"]) == re.sub(r"<.*?>", "", c["fn"]):
+                        if "blocks" in g and re.search(only, g["name"]):
+                            out.append(F.deep_body(g, only=only))
+    return out
+
+
 def _has_bin(b, op, const):
+    if isinstance(b, list):
+        return any(_has_bin(x, op, const) for x in b)
     for blk in b.blocks:
         for s in blk["s"]:
             if s["k"] == "assign" and s["rv"]["k"] == "bin" and s["rv"]["op"] == op and const in (op_const_val(s["rv"]["a"]), op_const_val(s["rv"]["b"])):
